@@ -144,6 +144,11 @@ def cases(tier, seed):
         base = {'N': N, 'R': R, 'patterns': [[list(p) for p in pk] for pk in pats]}
         cs.append({'scen': 'tt_round', 's': dict(base, prelude='round_set_core', set_core=k)})
         cs.append({'scen': 'tt_round', 's': dict(base, prelude='round')})
+        # the operand is the outcome of an earlier rounding; the second call asks for a rank cap / the same or a tighter tolerance
+        cs.append({'scen': 'tt_round', 's': dict(base, prelude='round_chain', eps0='zero', eps='zero', rmax=1)})
+        cs.append({'scen': 'tt_round', 's': dict(base, prelude='round_chain', eps0='zero', rmax=1)})
+        if k == 0:
+            cs.append({'scen': 'tt_round', 's': dict(base, prelude='round_chain', eps0='zero')})
     # complex cores whose unfolding has columns with u^T u = 1 but u^H u != 1 within reach of the solver (phases 1 and i in one column):
     # any shortcut that recognises isometries must use the Hermitian product
     for N, R, pats in [([4, 2], [1, 1, 1], [[[0, 0, 0], [0, 1, 0], [0, 2, 0], [0, 3, 0]], [[0, 0, 0], [0, 1, 0]]]),
@@ -167,7 +172,8 @@ def opts(tier):
 
 def sig(case, label):
     s = case['s']
-    return 'tt_round:%s:%s:%s:%s' % ('ttm' if 'M' in s else 'tt', s.get('eps', 'sym'), 'rmax' if s.get('rmax') else 'normax', label.rstrip('0123456789').rstrip('_'))
+    return 'tt_round:%s:%s:%s%s:%s' % ('ttm' if 'M' in s else 'tt', s.get('eps', 'sym'), 'rmax' if s.get('rmax') else 'normax', ':' + s['prelude'] if s.get('prelude') else '',
+                                     label.rstrip('0123456789').rstrip('_'))
 
 
 def meta(tier):
